@@ -24,7 +24,7 @@ def max_antichain(g):
     return best
 
 
-def rendezvous(case_graph, nodes_A, workers, scheduler, timeout=4.0):
+def rendezvous(case_graph, nodes_A, workers, scheduler, timeout=12.0):
     """Real threads: calls in the antichain A wait until min(workers, |A|) of them are executing at once."""
     target = min(workers, len(nodes_A))
     cond = threading.Condition()
